@@ -175,8 +175,13 @@ def shrink(server, spec, cls, budget_s=150):
     small = compact(cur)
     import json
     used = json.dumps([small["prelude"], small["tasks"]])
+    keep = {a["name"] for a in small.get("adhoc_classes", ())
+            if ("adhoc.%s" % a["name"]) in used or ('"%s"' % a["name"]) in used}
+    for a in small.get("adhoc_classes", ()):       # ad-hoc bases of kept classes
+        if a["name"] in keep and str(a.get("base", "")).startswith("adhoc."):
+            keep.add(a["base"][6:])
     small["adhoc_classes"] = [a for a in small.get("adhoc_classes", ())
-                              if ("adhoc.%s" % a["name"]) in used]
+                              if a["name"] in keep]
     if test(small):
         return small, steps
     return cur, steps
